@@ -25,6 +25,17 @@ Proof. destruct c; reflexivity. Qed.
 Lemma set_ps_same c : c <| k_ps := k_ps c |> = c.
 Proof. destruct c; reflexivity. Qed.
 
+(* application actions never raise inside run(): they either complete or abandon the loop *)
+Lemma do_actions_status acts : forall c, snd (do_actions c acts) = SOk \/ snd (do_actions c acts) = SAbandon.
+Proof.
+  induction acts as [|a acts IH]; intros c; [left; reflexivity|].
+  destruct a as [cl|w]; cbn [do_actions].
+  - destruct (api_call c cl) as [c1 r]. apply IH.
+  - right. reflexivity.
+Qed.
+Lemma deliver_status app c e : snd (deliver app c e) = SOk \/ snd (deliver app c e) = SAbandon.
+Proof. unfold deliver. apply do_actions_status. Qed.
+
 (* ---------- a generic "frame" argument ----------
    P is any preorder on connection states that every elementary field update of the model respects.
    Then every function of the model below the parser level (everything except on_item/feed/loop, which
